@@ -337,14 +337,32 @@ func runC08Extract(c *fw.Case) {
 		}
 		return g
 	}
+	// optionally a seed (an edited copy of the blob with its own index), as `--seed seed.caibx`
+	useSeed := c.Bool("extract.seed")
+	seedIndex := filepath.Join(c.Dir(), "seed.caibx")
+	if useSeed {
+		sb := editBlob(c, pb.blob, "seedblob")
+		os.WriteFile(filepath.Join(c.Dir(), "seed"), sb, 0644)
+		si := mkIndex(sb, sizes{256, 1024, 4096})
+		f, err := os.Create(seedIndex)
+		if err != nil {
+			c.HarnessError("%v", err)
+			return
+		}
+		si.WriteTo(f)
+		f.Close()
+	}
 	args := func(g *gateServer) []string {
 		a := []string{"extract", "-n", n, "-s", g.url()}
 		if inPlace {
 			a = append(a, "--in-place")
 		}
+		if useSeed {
+			a = append(a, "--seed", seedIndex)
+		}
 		return append(a, pb.index, out)
 	}
-	c.Class(fmt.Sprintf("extract-kill inplace=%v n=%s prior=%v", inPlace, n, prior != nil))
+	c.Class(fmt.Sprintf("extract-kill inplace=%v n=%s prior=%v seed=%v", inPlace, n, prior != nil, useSeed))
 	c.Note("real `desync extract` inplace=%v n=%s chunks=%d prior=%d bytes", inPlace, n, len(pb.idx.Chunks), len(prior))
 	// full run: counts the requests and must reproduce the blob
 	reset()
@@ -362,6 +380,10 @@ func runC08Extract(c *fw.Case) {
 	got, _ := os.ReadFile(out)
 	if res.exit != 0 || !bytes.Equal(got, pb.blob) {
 		c.Violate("extract-failed", "desync extract", "plain run: exit %d, output equal=%v: %s", res.exit, bytes.Equal(got, pb.blob), res.output)
+		return
+	}
+	if total == 0 {
+		c.Outcome("ok") // everything came from the seed: no request to hold
 		return
 	}
 	for k := 1; k <= total; k++ {
